@@ -18,6 +18,7 @@ def check(A):
         S.poll_rules(A, fl, 'C15')
         S.close_once(A, fl, 'C15')
         R.admission_rules(A, fl, 'C15', parts=('sinks',))
+        R.queue_unbounded_rule(A, fl, 'C15')
     R.isolation_rules(A, 'C15')
     R.asgi_rules(A, 'C15')
     R.asgi_body_rule(A, 'C15')
